@@ -26,6 +26,35 @@ def is_opaque(x):
     return type(x).__name__.startswith('Stub_')
 
 
+# ---- sequences of strings.  Natively plain Python; in proofs `prefix_join` is a measure of the list
+# (pyvc.texts: an uninterpreted prefix function with its defining equations instantiated where needed).
+
+def prefix_join(xs, i):
+    """xs[0] + ... + xs[i-1]"""
+    return ''.join(xs[:i])
+
+
+def join_of(xs):
+    return prefix_join(xs, len(xs))
+
+
+def is_find(i, s, sub):
+    """i == s.find(sub)   (in proofs: through the shared concatenation pieces of s)"""
+    return i == s.find(sub)
+
+
+from pyvc.replaylib import PeekIter as ListIter      # noqa: E402  (a list iterator that can be inspected)
+
+
+def peek(it):
+    """the items an iterator has left, without consuming them (spec level only)"""
+    if isinstance(it, ListIter):
+        return it.xs[it.pos:]
+    if isinstance(it, (list, tuple)):
+        return list(it)
+    raise TypeError('peek: not a spec-level iterator: %r' % (it,))
+
+
 def all_chars(s, pred):
     """every character of the string s satisfies pred (a pure predicate on one-character strings).
     In proofs: a measure over string concatenation (pyvc.charclass)."""
